@@ -121,15 +121,24 @@ def flatten(levels, i, reading='late'):
 
     items = []
     # the entry: the module's start rule is its own, else the nearest ancestor's
-    st = top('start')
-    if st is not None:
-        items.append({'k': 'rule', 'name': 'start', 'expr': ['ref', 'start__%d' % st]})
+    # the module's start rule: its own first rule called start in any case, else the nearest
+    # ancestor's (rule names are case-sensitive, the recognition of the start rule is not)
+    def level_start(lv):
+        for it in lv['items']:
+            if it['k'] in ('rule', 'class') and not it.get('ignore') and it['name'].lower() == 'start':
+                return it['name']
+        return None
+    starts = [level_start(lv) for lv in levels]
+    for j in range(len(levels) - 1, -1, -1):
+        if starts[j] is not None:
+            items.append({'k': 'rule', 'name': 'start', 'expr': ['ref', '%s__%d' % (starts[j], j)]})
+            break
     for j, lv in enumerate(levels):
         for it in lv['items']:
             if it['k'] == 'rule' and not it.get('ignore'):
                 bound = set(it.get('params') or [])
                 body = ren(it['expr'], j, bound)
-                if it['name'] == 'start' and in_force(j):
+                if it['name'] == starts[j] and in_force(j):
                     body = ['right', ['ref', ig_name(j)], body]
                 new = {'k': 'rule', 'name': '%s__%d' % (it['name'], j), 'expr': body}
                 if it.get('params'):
